@@ -359,6 +359,17 @@ def stream_number_soup(rng, n):
             else: cases.append(pcase(rng.choice('OoP'), 0, 0, text + b'\0', {'tags': ['number-soup']}))
     return cases
 
+def stream_wide(rng):
+    """shallow but WIDE documents: more sibling containers than CJSON_NESTING_LIMIT (the depth counter must be restored after every container,
+    empty ones included)"""
+    cases = []
+    for unit in (b'[]', b'{}', b'[1]', b'{"a":{}}'):
+        n = NESTING_LIMIT + 1
+        text = b'[' + b','.join([unit] * n) + b']'
+        cases.append(pcase('L', 0, len(text), text, {'tags': ['valid', 'wide'], 'accept_only': True}))
+        cases.append(pcase('P', 0, 0, text + b'\0', {'tags': ['valid', 'wide'], 'accept_only': True}))
+    return cases
+
 def all_streams(ctx, salt):
     rng = random.Random(ctx['seed'] * 6700417 + salt)
     quick = ctx['tier'] == 'quick'
@@ -372,6 +383,7 @@ def all_streams(ctx, salt):
     cases += stream_lenient(rng)
     cases += stream_number_soup(rng, 60 if quick else 1500)
     cases += stream_depth(rng)
+    cases += stream_wide(rng)
     return cases
 
 # ------------------------------------------------------------------ output parsing
